@@ -115,6 +115,9 @@ struct DisabledTerminalIn;
 
 impl common::TerminalIn for DisabledTerminalIn {
     fn read_line(&mut self, _: Option<&str>, _: &mut String) -> std::io::Result<()> {
-        todo!()
+        // TeX.2021.484
+        Err(std::io::Error::other(
+            "cannot \\read from terminal in nonstop modes",
+        ))
     }
 }
